@@ -370,4 +370,16 @@ def obligations(tier):
     # 1000-byte recipient buffer of qmail-qmtpd with a RELAYCLIENT suffix (template with 999/1000-byte recipients, C07)
     obls += borrow("C03", ["del_dochan_truncation"], tier)
     obls += borrow("C07", ["qmtpd_long_rcpt"], tier)
+    # the program-level surfaces of the property (SMTP DATA and address arguments, POP3 sessions, remote SMTP replies, message
+    # headers and address lists, .qmail and envelope lines) are decided in their owners' harnesses with all of cbmc's memory
+    # checks on; the cheaper ones are part of this check at both tiers, the larger ones at the thorough tier
+    obls += borrow("C05", ["smtpd_blast"], tier)
+    obls += borrow("C08", ["addrparse_ref"] + ([] if quick else ["smtp_seq"]), tier)
+    obls += borrow("C09", ["smtpcode"], tier)
+    obls += borrow("C19", ["popup_auth", "retr_top", "session_step"] + ([] if quick else ["popup_commands"]), tier)
+    obls += borrow("C13", ["envelope_lines", "bouncexf"] + ([] if quick else ["dotqmail_loop"]), tier)
+    obls += borrow("C07", ["received_safe"], tier)
+    obls += borrow("C17", ["addrlist_forms"], tier)
+    if not quick:
+        obls += borrow("C03", ["todo_do"], tier)
     return obls
